@@ -72,6 +72,9 @@ Horsepower.equals(550 * Foot * PoundForce / Second)
 
 Donkeypower = Power.unit("donkeypower", "donkeypower")
 Donkeypower.equals(1 / 3 * Horsepower)
+# also stated in the units horsepower is defined in, so that it converts to other
+# units of power the same way (a conversion expands a unit's own definition only)
+Donkeypower.equals(550 / 3 * Foot * PoundForce / Second)
 
 MetricHorsepower = Power.unit("metric horsepower", "hp(M)")
 MetricHorsepower.equals(735.49875 * Watt)
